@@ -579,12 +579,15 @@ def check_helper(ctx, typ, D, seq, declared, so, col, snap_screen=True):
         col.outcome(typ, "helper-refused-arity")
         return
     indiv = []
+    s_pre = so.snap() if snap_screen else None
     for t in ths:
         indiv.append((t.obj.predict_conditional_mean(so.obj), t.obj.predict_viability(so.obj),
                       t.obj.predict_conditional_variance(so.obj)))
         col.evaluations += 3
         col.transitions += 3
     s0 = so.snap() if snap_screen else None
+    if s0 != s_pre:
+        bad("mutated-screen", "predict", "a prediction call changed the screen")
     t0 = [t.snap() for t in ths]
     n, k = len(so.rows), len(ths)
     calls = [("mean_all", M.predict_mean_all, 0, False), ("viability_all", M.predict_viability_all, 1, False),
